@@ -82,6 +82,38 @@ def specDestroyLoop (a : AState) (l : LH) : AState × Except Code Unit :=
   | none => (a, .error CIF_INVALID_HANDLE)
   | some _ => ({ a with loops := a.loops.filter (fun y => !(y.cid == l.cid && y.num == l.loopNum)) }, .ok ())
 
+/-- cif_get_block: the block whose normalised code matches, or CIF_NOSUCH_BLOCK -/
+def specGetBlockH (a : AState) (name : Name) : Except Code CH :=
+  match a.blocks.find? (fun b => b.name == name.key) with
+  | some b => .ok { id := b.cid, code := b.nameOrig, isBlock := true }
+  | none => .error CIF_NOSUCH_BLOCK
+
+/-- cif_get_all_blocks -/
+def specAllBlocks (a : AState) : Except Code (List CH) :=
+  .ok (a.blocks.map (fun b => { id := b.cid, code := b.nameOrig, isBlock := true }))
+
+/-- cif_container_get_frame -/
+def specGetFrameH (a : AState) (h : CH) (name : Option Name) : Except Code CH :=
+  match name with
+  | none => .error CIF_INVALID_FRAMECODE
+  | some n =>
+    if !n.valid then .error CIF_INVALID_FRAMECODE
+    else match a.frames.find? (fun f => f.parent == h.id && f.name == n.key) with
+      | some f => .ok { id := f.cid, code := f.nameOrig, isBlock := false }
+      | none => .error CIF_NOSUCH_FRAME
+
+/-- cif_container_get_all_frames -/
+def specAllFrames (a : AState) (h : CH) : Except Code (List CH) :=
+  .ok ((a.frames.filter (fun f => f.parent == h.id)).map (fun f => { id := f.cid, code := f.nameOrig, isBlock := false }))
+
+/-- cif_container_destroy: the container goes, with its loops; the save frames directly under it lose their place in the tree -/
+def specDestroyContainer (a : AState) (h : CH) : AState × Except Code Unit :=
+  if (a.containers.filter (fun c => c.id == h.id)).length == 0 then (a, .error CIF_INVALID_HANDLE)
+  else ({ a with containers := a.containers.filter (fun c => !(c.id == h.id)),
+                 blocks := a.blocks.filter (fun b => !(b.cid == h.id)),
+                 frames := a.frames.filter (fun f => !(f.cid == h.id) && !(f.parent == h.id)),
+                 loops := a.loops.filter (fun y => !(y.cid == h.id)) }, .ok ())
+
 -- ---- histories on the documented model -----------------------------------------------------------------------------------------------
 
 /-- the world of a history, every managed CIF as the documented model; the handle tables are the caller's (a handle names an object),
@@ -110,6 +142,10 @@ def liveL (a : AWorld) (l : Nat) : Option (LHE × AState) :=
     | none => none
     | some _ => (a.liveC e.cif).map (fun s => (e, s))
 def setCif (a : AWorld) (c : Nat) (s : AState) : AWorld := { a with cifs := a.cifs.set c (some s) }
+def itOnCh (a : AWorld) (h : Nat) : Bool :=
+  a.its.any (fun e => match e with
+    | some e => (match a.lhs.getD e.lh none with | some le => le.ch == h | none => false)
+    | none => false)
 def itOnLh (a : AWorld) (l : Nat) : Bool := a.its.any (fun e => match e with | some e => e.lh == l | none => false)
 
 end AWorld
@@ -117,6 +153,7 @@ end AWorld
 /-- the ops `specStep` covers so far -/
 def Op.covered : Op → Bool
   | .addPkt .. | .setCat .. | .ldestroy .. => true
+  | .cifNew | .cifDel .. | .getBlock .. | .blocks .. | .getFrame .. | .frames .. | .code .. | .isBlock .. | .getCat .. | .cdestroy .. => true
   | _ => false
 
 open World in
@@ -141,6 +178,62 @@ def specStep (a : AWorld) : Op → Option (AWorld × Result)
       if a.itOnLh l then some (a, skipped) else
       let (st1, r) := specDestroyLoop st e.h
       some ({ (a.setCif e.cif st1) with lhs := match r with | .ok _ => a.lhs.set l none | .error _ => a.lhs }, { rc := some (codeOf r) })
+  | .cifNew => some ({ a with cifs := a.cifs ++ [some {}] }, { rc := some CIF_OK })
+  | .cifDel c =>
+    match a.liveC c with
+    | none => some (a, skipped)
+    | some _ =>
+      some ({ cifs := a.cifs.set c none,
+              chs := a.chs.map (fun e => match e with | some e => if e.cif == c then none else some e | none => none),
+              lhs := a.lhs.map (fun e => match e with | some e => if e.cif == c then none else some e | none => none),
+              its := a.its.map (fun e => match e with | some e => if e.cif == c then none else some e | none => none) },
+            { rc := some CIF_OK })
+  | .getBlock c n =>
+    match a.liveC c with
+    | none => some ({ a with chs := a.chs ++ [none] }, skipped)
+    | some st =>
+      let r := specGetBlockH st n
+      some ({ (a.setCif c st) with chs := a.chs ++ [match r with | .ok h => some { cif := c, h := h } | .error _ => none] }, { rc := some (codeOf r) })
+  | .blocks c =>
+    match a.liveC c with
+    | none => some (a, skipped)
+    | some st =>
+      let r := specAllBlocks st
+      some (a.setCif c st, { rc := some (codeOf r), out := match r with | .ok hs => .strs (hs.map (·.code)) | .error _ => .unit })
+  | .getFrame h n =>
+    match a.liveH h with
+    | none => some ({ a with chs := a.chs ++ [none] }, skipped)
+    | some (e, st) =>
+      let r := specGetFrameH st e.h n
+      some ({ (a.setCif e.cif st) with chs := a.chs ++ [match r with | .ok h' => some { cif := e.cif, h := h' } | .error _ => none] }, { rc := some (codeOf r) })
+  | .frames h =>
+    match a.liveH h with
+    | none => some (a, skipped)
+    | some (e, st) =>
+      let r := specAllFrames st e.h
+      some (a.setCif e.cif st, { rc := some (codeOf r), out := match r with | .ok hs => .strs (hs.map (·.code)) | .error _ => .unit })
+  | .code h =>
+    match a.liveH h with
+    | none => some (a, skipped)
+    | some (e, _) => some (a, { rc := some CIF_OK, out := .str (some e.h.code) })
+  | .isBlock h =>
+    match a.liveH h with
+    | none => some (a, skipped)
+    | some (e, _) => some (a, { rc := some (if e.h.isBlock then CIF_OK else CIF_ARGUMENT_ERROR) })
+  | .getCat l =>
+    match a.liveL l with
+    | none => some (a, skipped)
+    | some (e, _) => some (a, { rc := some CIF_OK, out := .str (getCategory e.h) })
+  | .cdestroy h =>
+    match a.liveH h with
+    | none => some (a, skipped)
+    | some (e, st) =>
+      if a.itOnCh h then some (a, skipped) else
+      let (st1, r) := specDestroyContainer st e.h
+      some ({ (a.setCif e.cif st1) with
+                chs := a.chs.set h none,
+                lhs := a.lhs.map (fun le => match le with | some le => if le.ch == h then none else some le | none => none) },
+            { rc := some (codeOf r) })
   | _ => none
 
 /-- a whole history on the documented model (`none` as soon as an op is not covered) -/
